@@ -25,6 +25,7 @@ def dispatch (line : String) : String :=
   | "fblk" :: w => fblkOp w
   | "sink" :: w => sinkOp w | "sinkenc" :: w => sinkencOp w
   | "encseq" :: w => encseqOp w
+  | "tovecs" :: w => tovecsOp w
   | "encspec" :: w => encSpec w
   | "wf" :: w => wfOp w
   | "seq" :: w => seqOp w
